@@ -572,10 +572,17 @@ pub fn exec_case(wk: &mut Worker, c: &Case) -> CaseResult {
             // the one-write run is incomplete: nothing to compare (the one-write form is judged on
             // its own by the cases generated with Seg::Whole)
             res.labels.push("differential-skipped-incomplete".into());
-        } else if received2 != received {
+        } else if received2 != received && {
+            // frame by frame; replies whose order the server does not define (hash-map
+            // iteration: KEYS, SMEMBERS, HGETALL, ...) compare as multisets, replies with a random
+            // outcome (SPOP, SRANDMEMBER, RANDOMKEY) by shape only
             let (f1, _, _) = resp::decode_all(&received);
             let (f2, _, _) = resp::decode_all(&received2);
-            let idx = f1.iter().zip(&f2).position(|(a, b)| a != b).unwrap_or(f1.len().min(f2.len()));
+            f1.len() != f2.len() || f1.iter().zip(&f2).enumerate().any(|(i, (x, y))| !same_reply(b_expect_cmd(&b.expect, i), x, y))
+        } {
+            let (f1, _, _) = resp::decode_all(&received);
+            let (f2, _, _) = resp::decode_all(&received2);
+            let idx = f1.iter().zip(&f2).enumerate().position(|(i, (x, y))| !same_reply(b_expect_cmd(&b.expect, i), x, y)).unwrap_or(f1.len().min(f2.len()));
             res.verdict = Verdict::Fail {
                 what: format!(
                     "replies differ between the segmented send and one write: frame #{} ({}) is {:?} vs {:?}",
@@ -590,6 +597,72 @@ pub fn exec_case(wk: &mut Worker, c: &Case) -> CaseResult {
         }
     }
     res
+}
+
+fn b_expect_cmd(expect: &[(Option<Bytes>, bool, String)], i: usize) -> &str {
+    expect.get(i).map(|e| e.2.as_str()).unwrap_or("")
+}
+
+/// Equality of two replies to the same command in two runs of the same pipeline.
+fn same_reply(shown_cmd: &str, a: &Frame, b: &Frame) -> bool {
+    if a == b {
+        return true;
+    }
+    // the command as shown: "NAME" "arg" ...
+    let name = shown_cmd.trim_start_matches('"').split('"').next().unwrap_or("").to_ascii_uppercase();
+    match name.as_str() {
+        "KEYS" | "SMEMBERS" | "SUNION" | "SINTER" | "SDIFF" | "HKEYS" | "HVALS" | "SCAN" | "SSCAN" | "HSCAN" | "ZSCAN" => match (a, b) {
+            (Frame::Array(x), Frame::Array(y)) => {
+                let mut x: Vec<String> = x.iter().map(|f| format!("{:?}", f)).collect();
+                let mut y: Vec<String> = y.iter().map(|f| format!("{:?}", f)).collect();
+                x.sort();
+                y.sort();
+                x == y
+            }
+            _ => false,
+        },
+        "HGETALL" | "XRANGE" | "XREVRANGE" | "XREAD" => match (a, b) {
+            // pairs / entry fields come out of hash maps: same bytes in some order
+            (Frame::Array(_), Frame::Array(_)) => {
+                let flat = |f: &Frame| {
+                    let mut out = Vec::new();
+                    fn walk(f: &Frame, out: &mut Vec<String>) {
+                        match f {
+                            Frame::Array(v) => v.iter().for_each(|e| walk(e, out)),
+                            other => out.push(format!("{:?}", other)),
+                        }
+                    }
+                    walk(f, &mut out);
+                    out.sort();
+                    out
+                };
+                flat(a) == flat(b)
+            }
+            _ => false,
+        },
+        "SPOP" | "SRANDMEMBER" | "RANDOMKEY" => std::mem::discriminant(a) == std::mem::discriminant(b),
+        "EXEC" => match (a, b) {
+            // a transaction's slots may hold unordered replies: slot by slot, equal or the same multiset
+            (Frame::Array(x), Frame::Array(y)) => {
+                x.len() == y.len()
+                    && x.iter().zip(y).all(|(p, q)| {
+                        p == q
+                            || match (p, q) {
+                                (Frame::Array(u), Frame::Array(v)) => {
+                                    let mut u: Vec<String> = u.iter().map(|f| format!("{:?}", f)).collect();
+                                    let mut v: Vec<String> = v.iter().map(|f| format!("{:?}", f)).collect();
+                                    u.sort();
+                                    v.sort();
+                                    u == v
+                                }
+                                _ => false,
+                            }
+                    })
+            }
+            _ => false,
+        },
+        _ => false,
+    }
 }
 
 fn case2j(c: &Case) -> Value {
